@@ -563,11 +563,34 @@ class Real(PackedOps, RandOps):
         total = sum(abs(n) * (K // d) for n, d in ratios)
         return total >= 2 ** 24
 
+    @staticmethod
+    def prod_range_unsafe(m, red, ordout):
+        """`prod` in floating point: the exact model predicts the product only while no PARTIAL product
+        leaves the normal range of the working precision (an overflow to inf followed by a factor 0 gives
+        NaN, i.e. an invalid pixel; an underflow loses the value).  Sufficient for safety: within every
+        group of children the sum of |log2 |v|| over the non-zero values stays below the exponent range."""
+        if red != 'prod' or m.is_rec_array or m.is_wide_mask_map or m.dtype.kind == 'b':
+            return False
+        lim = 120.0 if m.dtype == np.float32 else 1000.0
+        vp = m.valid_pixels
+        if vp.size == 0:
+            return False
+        vals = np.abs(m.get_values_pix(vp).astype(np.float64))
+        shift = 2 * (int(np.log2(m.nside_sparse)) - ordout)
+        grp = vp >> max(shift, 0)
+        with np.errstate(divide='ignore'):
+            lg = np.where(vals > 0, np.abs(np.log2(np.where(vals > 0, vals, 1.0))), 0.0)
+        tot = {}
+        for g, x in zip(grp.tolist(), lg.tolist()):
+            tot[g] = tot.get(g, 0.0) + x
+        return max(tot.values()) >= lim
+
     def op_deg(self, pos, kv):
         m = self.m(pos[0])
         w = self.m(kv['w']) if 'w' in kv else None
         self.pool[kv['r']] = m.degrade(2 ** int(kv['ord']), reduction=kv.get('red', 'mean'), weights=w)
-        if self.f4_sum_unsafe(m, kv.get('red', 'mean')):
+        if self.f4_sum_unsafe(m, kv.get('red', 'mean')) or self.prod_range_unsafe(m, kv.get('red', 'mean'),
+                                                                                   int(kv['ord'])):
             return 'inexact'
         return 'ok'
 
@@ -721,7 +744,8 @@ class Real(PackedOps, RandOps):
                 src = HealSparseMap.read(self.files[kv.get('f', 'f')])
             except Exception:
                 src = None
-            if src is not None and self.f4_sum_unsafe(src, kv.get('red', 'mean')):
+            if src is not None and (self.f4_sum_unsafe(src, kv.get('red', 'mean')) or
+                                    self.prod_range_unsafe(src, kv.get('red', 'mean'), int(kv['ord']))):
                 return 'inexact'
         return 'ok'
 
@@ -761,7 +785,11 @@ class Real(PackedOps, RandOps):
             kw['reduction'] = kv.get('red', 'mean')
         if 'key' in kv:
             kw['key'] = m.dtype.names[int(kv['key'])]
-        return enc_cells(m.generate_healpix_map(nest=(kv.get('nest', '1') == '1'), **kw))
+        out = enc_cells(m.generate_healpix_map(nest=(kv.get('nest', '1') == '1'), **kw))
+        if 'ord' in kv and 'key' not in kv and (self.f4_sum_unsafe(m, kv.get('red', 'mean')) or
+                                                 self.prod_range_unsafe(m, kv.get('red', 'mean'), int(kv['ord']))):
+            return 'inexact'
+        return out
 
     def op_interp(self, pos, kv):
         m = self.m(pos[0])
